@@ -785,3 +785,34 @@ def d8_continue(f):
         f._lost('D8 continue pattern')
     f.log.rule('D8', f, '%d `if C { continue; }` -> `if !(C) { rest }`' % n)
     return f
+
+
+def d10_return_in_for(f, ordinal, ret_ty):
+    """D10 (return form): `return E;` inside the body of for-loop #ordinal (not inside a nested loop or closure) ->
+    `{ verif_ret = Some(E); break; }`, flag declared before the loop and returned right after it."""
+    ls = f.loops()
+    if ordinal >= len(ls):
+        f._lost('D10: loop #%d not found' % ordinal)
+    s, bo, kw = ls[ordinal]
+    t = f.text
+    mask = code_mask(t)
+    bc = match_brace(t, mask, bo)
+    nested = [(a, match_brace(t, mask, b)) for (a, b, k) in ls if a > s and a < bc]
+    edits = []
+    for m in re.finditer(r'([ \t]*)return\s+([^;]+);', t[bo:bc]):
+        a = bo + m.start()
+        if not mask[a + len(m.group(1))]:
+            continue
+        if any(x <= a <= y for (x, y) in nested):
+            f._lost('D10: return inside a nested loop')
+        edits.append((a, bo + m.end(), m.group(1), m.group(2)))
+    ind = re.search(r'[ \t]*$', t[:s]).group(0)
+    out = t
+    for (a, b, lead, expr) in reversed(edits):
+        out = out[:a] + '%s{\n%s    verif_ret = Some(%s);\n%s    break;\n%s}' % (lead, lead, expr.strip(), lead, lead) + out[b:]
+    bc2 = bc + (len(out) - len(t))
+    out = out[:bc2 + 1] + '\n%sif let Some(verif_r) = verif_ret {\n%s    return verif_r;\n%s}' % (ind, ind, ind) + out[bc2 + 1:]
+    out = out[:s] + 'let mut verif_ret: Option<%s> = None;\n%s' % (ret_ty, ind) + out[s:]
+    f.text = out
+    f.log.rule('D10', f, '%d `return E;` in for-loop #%d -> flag + break' % (len(edits), ordinal))
+    return f
